@@ -37,7 +37,45 @@ void *verif_memset(void *dst, int c, size_t n)
 		((unsigned char *)dst)[g_m] = (unsigned char)c;
 	return dst;
 }
+
+/* strlen: returns a position of a NUL with no NUL at one arbitrary earlier position (ghost g_s).
+ * Over-approximates (a later NUL is also admitted); asserts that the scan cannot leave the
+ * object: the object's last byte, or the byte the harness names in g_nul_hint, is NUL. */
+size_t g_s;
+size_t g_nul_hint;
+size_t verif_strlen(const char *s)
+{
+	__CPROVER_assert(__CPROVER_r_ok(s, 1), "strlen: argument readable");
+	size_t rem = __CPROVER_OBJECT_SIZE(s) - __CPROVER_POINTER_OFFSET(s);
+	__CPROVER_assert(s[rem - 1] == 0 || (g_nul_hint < rem && s[g_nul_hint] == 0), "strlen: a NUL exists inside the object (no over-read)");
+	size_t n = nondet_size_t();
+	__CPROVER_assume(n < rem && s[n] == 0 && (g_s >= n || s[g_s] != 0));
+	if (g_nul_hint < rem && s[g_nul_hint] == 0)
+		__CPROVER_assume(n <= g_nul_hint);   /* the first NUL is not after a known NUL */
+	return n;
+}
+
+/* strncpy: writes exactly n bytes; content kept at one ghost index */
+char *verif_strncpy(char *dst, const char *src, size_t n)
+{
+	if (n == 0)
+		return dst;
+	__CPROVER_assert(__CPROVER_w_ok(dst, n), "strncpy: destination writable for n bytes");
+	size_t sl = verif_strlen(src);
+	unsigned char keep = 0;
+	_Bool has = g_m < n;
+	if (has)
+		keep = g_m < sl ? ((const unsigned char *)src)[g_m] : 0;
+	__CPROVER_havoc_slice(dst, n);
+	if (has)
+		((unsigned char *)dst)[g_m] = keep;
+	return dst;
+}
 #define memcpy verif_memcpy
+#ifndef VERIF_KEEP_MEMSET
 #define memset verif_memset
+#endif
+#define strlen verif_strlen
+#define strncpy verif_strncpy
 #endif
 #endif
